@@ -228,9 +228,68 @@ def normalise(res) -> Outcome:
             o.values[str(c)] = v
             o.dtypes[str(c)] = dt
         o.name = None
+    elif isinstance(res, dict):
+        o.kind = "dict"
+        o.labels = [norm_any(k) for k in res.keys()]
+        o.names, o.columns, o.name = [], ["dict"], None
+        o.values = {"dict": [tuple(norm_np(np.asarray(v))) for v in res.values()]}
+        o.dtypes = {"dict": "object"}
+    elif isinstance(res, (bool, int, float, np.generic)) or res is None:
+        o.kind = "scalar"
+        o.labels, o.names, o.columns, o.name = [0], [], ["scalar"], None
+        o.values = {"scalar": [C.norm_scalar(res)]}
+        o.dtypes = {"scalar": type(res).__name__}
     else:
         raise TypeError(f"cannot normalise result of type {type(res).__name__}")
     return o
+
+
+def veq(a, b, rtol=1e-12):
+    """equality of two normalised scalars (None = NULL); floats up to rtol"""
+    if a is None or b is None:
+        return a is None and b is None
+    if isinstance(a, tuple) or isinstance(b, tuple):
+        return (isinstance(a, tuple) and isinstance(b, tuple) and len(a) == len(b)
+                and all(veq(x, y, rtol) for x, y in zip(a, b)))
+    if isinstance(a, float) or isinstance(b, float):
+        try:
+            a, b = float(a), float(b)
+        except (TypeError, ValueError):
+            return False
+        if a == b:
+            return True
+        if math.isinf(a) or math.isinf(b):
+            return False
+        return abs(a - b) <= rtol * max(abs(a), abs(b), 1e-300)
+    return a == b and (isinstance(a, bool) == isinstance(b, bool) or True)
+
+
+def table(o: Outcome):
+    """{label: tuple of column values} for a normalised result"""
+    cols = list(o.values)
+    return {lab: tuple(o.values[c][i] for c in cols) for i, lab in enumerate(o.labels)}
+
+
+def same_mapping(o1: Outcome, o2: Outcome, rtol=1e-12, ordered=False):
+    """None if the two labelled results agree (label -> numbers), else a short description."""
+    if o1.raised or o2.raised:
+        if o1.raised and o2.raised:
+            return None if o1.raised.split(":")[0] == o2.raised.split(":")[0] else \
+                f"raised {o1.raised} vs raised {o2.raised}"
+        return f"raised {o1.raised}" if o1.raised else f"returned, but reference raised {o2.raised}"
+    if len(o1.labels) != len(set(o1.labels)):
+        return f"duplicate labels {o1.labels}"
+    t1, t2 = table(o1), table(o2)
+    if set(t1) != set(t2):
+        return f"labels {o1.labels} vs {o2.labels}"
+    if ordered and o1.labels != o2.labels:
+        return f"label order {o1.labels} vs {o2.labels}"
+    if list(map(str, o1.columns)) != list(map(str, o2.columns)):
+        return f"columns {o1.columns} vs {o2.columns}"
+    for lab in t1:
+        if not veq(t1[lab], t2[lab], rtol):
+            return f"at {lab}: {t1[lab]} vs {t2[lab]}"
+    return None
 
 
 def call(fn, *a, **kw) -> Outcome:
@@ -262,3 +321,84 @@ def mask_object(mref, n, kind="ndarray", index=None):
     if kind == "series":
         return pd.Series(arr, index=index)
     return arr
+
+
+# --------------------------------------------------------------------------- datasets
+def _take(obj, pos):
+    pos = np.asarray(pos, dtype=np.int64)
+    if isinstance(obj, pd.Series):
+        return obj.iloc[pos].reset_index(drop=True)
+    if isinstance(obj, pd.Categorical):
+        return obj.take(pos)
+    return np.asarray(obj)[pos]
+
+
+class Data:
+    """Concrete dataset for a word of rows (key tuple, x[, m]); rows keep their concrete values
+    when a subset is taken (needed by the differential oracles)."""
+
+    def __init__(self, w=None, kinds=("float",), vdtype="f8", seed=0, time_unit="ns"):
+        from . import ops as O
+
+        if w is None:
+            return
+        self.kinds = list(kinds)
+        self.vdtype = vdtype
+        self.seed = seed
+        nk = len(kinds)
+        self.n = n = len(w)
+        self.kts = [tuple(r[0]) for r in w]
+        self.xs = [r[1] for r in w]
+        self.ms = [r[2] for r in w] if (w and len(w[0]) > 2) else None
+        self.gids = [None if any(k < 0 for k in kt) else (kt if nk > 1 else kt[0])
+                     for kt in self.kts]
+        self.V, py = C.make_values(self.xs, vdtype, seed)
+        self.py = to_ns(py, vdtype)
+        self.keys, self.labels = [], []
+        for j, kind in enumerate(kinds):
+            arr, lab = make_key([kt[j] for kt in self.kts], kind, seed + j)
+            self.keys.append(arr)
+            self.labels.append(lab)
+        # second value set with the same nullity (ratio), timestamps, original positions
+        if self.V.dtype.kind == "f":
+            self.V2 = np.where(np.isnan(self.V), np.nan, np.abs(self.V) + 1.0).astype(self.V.dtype)
+        elif self.V.dtype.kind in "iu":
+            self.V2 = (np.abs(self.V.astype("i8")) + 1).astype(self.V.dtype)
+        else:
+            self.V2 = None
+        self.T, self.tsecs = O.times_for(n, unit=time_unit)
+        self.pos = list(range(n))
+
+    @property
+    def keyarg(self):
+        return self.keys[0] if len(self.keys) == 1 else list(self.keys)
+
+    def label_of(self, g):
+        if len(self.kinds) == 1:
+            return self.labels[0][g]
+        return tuple(self.labels[j][g[j]] for j in range(len(self.kinds)))
+
+    def take(self, pos):
+        d = Data()
+        d.kinds, d.vdtype, d.seed = self.kinds, self.vdtype, self.seed
+        d.n = len(pos)
+        d.kts = [self.kts[i] for i in pos]
+        d.xs = [self.xs[i] for i in pos]
+        d.ms = [self.ms[i] for i in pos] if self.ms is not None else None
+        d.gids = [self.gids[i] for i in pos]
+        d.V = _take(self.V, pos)
+        d.py = [self.py[i] for i in pos]
+        d.keys = [_take(k, pos) for k in self.keys]
+        d.labels = self.labels
+        d.V2 = None if self.V2 is None else _take(self.V2, pos)
+        d.T = _take(self.T, pos)
+        d.tsecs = [self.tsecs[i] for i in pos]
+        d.pos = [self.pos[i] for i in pos]
+        return d
+
+    def ctx(self, mref=None, mask_kind="ndarray"):
+        from . import ops as O
+
+        M = mask_object(mref, self.n, mask_kind)
+        VS = pd.Series(self.V, index=pd.Index(self.pos, dtype="int64"))
+        return O.Ctx(V=self.V, M=M, V2=self.V2, T=self.T, VS=VS, n=self.n)
